@@ -99,9 +99,24 @@ impl CacheAlignedAtomicUsize {
         self.0.fetch_add(value, ordering)
     }
 
+    /// Subtract, stopping at zero
     #[inline]
-    fn fetch_sub(&self, value: usize, ordering: Ordering) -> usize {
-        self.0.fetch_sub(value, ordering)
+    fn saturating_sub(&self, value: usize) {
+        let _ = self
+            .0
+            .fetch_update(Ordering::Relaxed, Ordering::Relaxed, |v| {
+                Some(v.saturating_sub(value))
+            });
+    }
+
+    #[inline]
+    fn fetch_update(
+        &self,
+        set_order: Ordering,
+        fetch_order: Ordering,
+        f: impl FnMut(usize) -> Option<usize>,
+    ) -> Result<usize, usize> {
+        self.0.fetch_update(set_order, fetch_order, f)
     }
 
     #[inline]
@@ -335,11 +350,14 @@ impl AtomicCacheMetrics {
         self.put_count.fetch_add(1, Ordering::Relaxed);
         self.entry_count.fetch_add(1, Ordering::Relaxed);
 
-        // Update memory usage and max atomically
+        // Update memory usage and max atomically (saturating: the counters never wrap)
         let new_memory = self
             .memory_usage_bytes
-            .fetch_add(size_bytes, Ordering::Relaxed)
-            + size_bytes;
+            .fetch_update(Ordering::Relaxed, Ordering::Relaxed, |v| {
+                Some(v.saturating_add(size_bytes))
+            })
+            .unwrap_or(0)
+            .saturating_add(size_bytes);
         self.max_memory_usage_bytes
             .fetch_max(new_memory, Ordering::Relaxed);
 
@@ -351,28 +369,31 @@ impl AtomicCacheMetrics {
         }
     }
 
+    /// One entry of `size_bytes` left the cache. The counters stop at zero: taking
+    /// out more than was recorded must not wrap them (a wrapped byte counter made the
+    /// next `record_put` overflow).
+    #[inline]
+    fn record_departure(&self, size_bytes: usize) {
+        self.entry_count.saturating_sub(1);
+        self.memory_usage_bytes.saturating_sub(size_bytes);
+    }
+
     #[inline]
     pub fn record_remove(&self, size_bytes: usize) {
         self.remove_count.fetch_add(1, Ordering::Relaxed);
-        self.entry_count.fetch_sub(1, Ordering::Relaxed);
-        self.memory_usage_bytes
-            .fetch_sub(size_bytes, Ordering::Relaxed);
+        self.record_departure(size_bytes);
     }
 
     #[inline]
     pub fn record_eviction(&self, size_bytes: usize) {
         self.eviction_count.fetch_add(1, Ordering::Relaxed);
-        self.entry_count.fetch_sub(1, Ordering::Relaxed);
-        self.memory_usage_bytes
-            .fetch_sub(size_bytes, Ordering::Relaxed);
+        self.record_departure(size_bytes);
     }
 
     #[inline]
     pub fn record_expiration(&self, size_bytes: usize) {
         self.expiration_count.fetch_add(1, Ordering::Relaxed);
-        self.entry_count.fetch_sub(1, Ordering::Relaxed);
-        self.memory_usage_bytes
-            .fetch_sub(size_bytes, Ordering::Relaxed);
+        self.record_departure(size_bytes);
     }
 
     /// Batches atomic updates for multiple operations at once.
